@@ -209,10 +209,17 @@ func load(cfg *Config, id string, obls []Obligation) (*loaded, string, error) {
 	prog, spkgs := ssautil.AllPackages(pkgs, ssa.InstantiateGenerics)
 	prog.Build()
 	l := &loaded{prog: prog, pkgs: map[string]*ssa.Package{}, loadS: time.Since(t0).Seconds()}
+	// "./chord" is also a suffix of ".../spec/chord": among the loaded roots whose path ends in the obligation's
+	// directory take the shortest one (the directory relative to the module root).
+	best := map[string]int{}
 	for i, p := range pkgs {
 		for _, o := range obls {
-			if l.pkgs[o.Pkg] == nil && strings.HasSuffix(p.PkgPath, strings.TrimPrefix(filepath.Clean(o.Pkg), ".")) {
-				l.pkgs[o.Pkg] = spkgs[i]
+			dir := strings.TrimPrefix(filepath.Clean(o.Pkg), ".")
+			if p.PkgPath == dir || strings.HasSuffix(p.PkgPath, "/"+strings.TrimPrefix(dir, "/")) {
+				if n, ok := best[o.Pkg]; !ok || len(p.PkgPath) < n {
+					best[o.Pkg] = len(p.PkgPath)
+					l.pkgs[o.Pkg] = spkgs[i]
+				}
 			}
 		}
 	}
